@@ -324,6 +324,43 @@ def coq_stmt2(s):
     return coq_stmt(s)
 
 
+def probe_texts(names):
+    """what mir2c of the checked tree PRINTS for each opcode applied to registers (harness mode `probe`: one function per
+    opcode holding just that instruction), operands renamed to $0 $1 $2 as in the symbolic texts; {} if the harness
+    cannot be built or run"""
+    try:
+        exe = vlib.build_harness('c20_insn', ['c02_insn.c'], units=('mir', 'mir-gen', 'mir2c'), defs=['-DC02_WITH_MIR2C'])
+        rc, out, err = vlib.sh([exe, 'probe'], input=('\n'.join(names) + '\n').encode(), timeout=300)
+    except Exception:
+        return {}
+    if rc != 0:
+        return {}
+    texts = {}
+    for m in re.finditer(r'\bpr_(\w+) \(void\) \{\n(.*?)\n\}', out, re.S):
+        lines = m.group(2).split('\n')
+        body = []
+        started = False
+        for l in lines:
+            t = l.strip()
+            if not started:
+                started = t.startswith('const int LITLE_ENDIAN =')
+                continue
+            if t == 'return 0;' or re.match(r'^l\d+:$', t) or 'qb0' in t or not t:
+                continue
+            t = re.sub(r'\bqa([0-2])\b', r'$\1', t)
+            t = re.sub(r'\bgoto l\d+;', 'goto $0;', t)
+            body.append(t)
+        texts[m.group(1)] = '\n'.join(body)
+    return texts
+
+
+def same_text(a, b):
+    return re.sub(r'\s+', '', a or '') == re.sub(r'\s+', '', b or '')
+
+
+NOTES = []
+
+
 def translate(repo):
     src = preprocess(repo)
     scratch = scratch_types(src)
@@ -355,6 +392,28 @@ def translate(repo):
                 rows.append((n, [('SUnknown', '%s: %s' % (e, text[:80]))]))
             except (KeyError, IndexError, ValueError, TypeError) as e:
                 rows.append((n, [('SUnknown', 'translator error %r: %s' % (e, text[:80]))]))
+    # the symbolic printer is checked against (and, where it could not read the printing code, replaced by) what the
+    # translator really prints for the instruction on registers
+    del NOTES[:]
+    probed = probe_texts(required)
+    if probed:
+        byop = dict(rows)
+        replaced = []
+        for n in required:
+            pt = probed.get(n)
+            if pt is None:
+                continue
+            st = byop.get(n)
+            bad = st is None or any(x[0] == 'SUnknown' for x in st)
+            if (bad and pt) or (not bad and not same_text(texts.get(n), pt)):
+                vart = {i: MODE_CTY.get(m) for i, m in enumerate(modes.get(n, []))}
+                byop[n] = text_to_stmts(pt, vart, scratch)
+                texts[n] = pt
+                replaced.append(n)
+        if replaced:
+            NOTES.append('%d rows read from the C text mir2c prints for the instruction on registers (printing code not in a form the '
+                         'symbolic printer executes): %s' % (len(replaced), ' '.join(replaced[:12]) + (' ...' if len(replaced) > 12 else '')))
+        rows = list(byop.items())
     order = {o: i for i, o in enumerate(ops)}
     rows.sort(key=lambda r: order[r[0]])
     return rows, texts
@@ -379,7 +438,8 @@ def main():
         open(out + '.tmp%d' % os.getpid(), 'w').write(txt)
         os.rename(out + '.tmp%d' % os.getpid(), out)
     unk = [o for o, st in rows if any(x[0] == 'SUnknown' for x in st)]
-    print('Mir2cTable: %d opcode rows, %d unknown%s' % (len(rows), len(unk), (': ' + ' '.join(unk[:8])) if unk else ''))
+    print('Mir2cTable: %d opcode rows, %d unknown%s%s' % (len(rows), len(unk), (': ' + ' '.join(unk[:8])) if unk else '',
+                                                         ('; ' + '; '.join(NOTES)) if NOTES else ''))
     return rows, texts
 
 
